@@ -219,9 +219,17 @@ def finish_spec(rng, s, doms, malformed):
 
 def gen_sub(rng):
     malformed = rng.random() < 0.15
+    # exception-focused sub-case: a well-formed non-conditional relation that keeps variables (at most one
+    # small slicing step) probed with three kinds of malformed calls
+    focus = (not malformed) and rng.random() < 0.12
     nvars = rng.choice([1, 2, 3, 3, 4, 4])
     pool = rng.sample(range(6), nvars)
-    if rng.random() < 0.3:
+    if focus:
+        for _ in range(6):
+            spec, wf = gen_bspec(rng, pool, ["mat", "mat", "expr", "py", "unary", "bool"], False)
+            if len(spec_vars(spec)) >= min(2, nvars):
+                break
+    elif rng.random() < 0.3:
         c, wf1 = gen_bspec(rng, pool, ["mat", "expr", "py", "unary", "bool", "bool", "zero", "neutral"], malformed)
         t, wf2 = gen_bspec(rng, pool, None, malformed)
         spec = dict(k="cond", c=c, t=t, rn=rng.random() < 0.5)
@@ -237,8 +245,8 @@ def gen_sub(rng):
     remaining = list(names)
     steps = []
     valid = wf
-    for _ in range(rng.choice([0, 1, 1, 2, 2, 3])):
-        if (malformed and rng.random() < 0.4) or rng.random() < 0.06:   # a bad step also on well-formed relations
+    for _ in range(rng.choice([0, 1]) if focus else rng.choice([0, 1, 1, 2, 2, 3])):
+        if (malformed and rng.random() < 0.4) or rng.random() < (0.4 if focus else 0.06):   # bad steps also on well-formed relations
             valid = False
             kind = rng.choice(["unknown", "ood", "again", "toomany"])
             keys = rng.sample(remaining, rng.randint(0, len(remaining)))
@@ -257,7 +265,7 @@ def gen_sub(rng):
                 p = [[v, rng.choice(doms[str(v)])] for v in remaining] + [[6, 0], [7, 0]]
             rng.shuffle(p)
         else:
-            size = rng.choice([0, 1, 1, 1, 2, 2, 3, 4])
+            size = rng.choice([0, 1]) if focus else rng.choice([0, 1, 1, 1, 2, 2, 3, 4])
             keys = rng.sample(remaining, min(size, len(remaining)))
             p = [[v, rng.choice(doms[str(v)])] for v in keys]
         steps.append(p)
@@ -274,7 +282,7 @@ def gen_sub(rng):
         rng.shuffle(c)
         probes.append(dict(c=c, full=True))
     # malformed probes (exception statements): up to 3 different kinds on a malformed sub-case
-    for kind in (rng.sample(["missing", "extra", "ood", "unknown"], 3) if malformed
+    for kind in (rng.sample(["missing", "extra", "ood", "unknown"], 3) if malformed or focus
                  else [rng.choice(["missing", "extra", "ood", "unknown"])] if rng.random() < 0.2 else []):
         base = list(rng.choice(comps))
         if kind == "missing" and base:
@@ -285,7 +293,8 @@ def gen_sub(rng):
             base = [[base[0][0], 9]] + base[1:]
         else:
             base = [[6, 1]] + base[1:]
-        probes.append(dict(c=base, full=False))
+        if dict(c=base, full=False) not in probes:
+            probes.append(dict(c=base, full=False))
     return dict(doms=doms, spec=spec, steps=steps, probes=probes, wf=wf, valid=valid)
 
 
